@@ -50,6 +50,7 @@ func c08fnCase(g *Gen, marker string, names, lines, cls []string) {
 }
 
 func c08v2(g *Gen) {
+	defer c08boolRepeated(g)
 	validateUnicodeTables()
 	// exhaustive: every argument text of length <= 4 over a 7-symbol alphabet, through the public API
 	for _, w := range allStrings([]rune("a1(), é"), 4) {
@@ -100,6 +101,30 @@ func c08v2(g *Gen) {
 				args = append(args, g.Pick(c08Args))
 			}
 			g.Emit("C08.tagstring", list(atom(name), atoms(args)), atom(gengo.Tag{Name: name, Args: args}.String()), "v2", "tagstring")
+		}
+	}
+}
+
+// c08boolRepeated: one key several times; the helper answers for the FIRST value, boolean or not
+func c08boolRepeated(g *Gen) {
+	for _, marker := range []string{"+", "+k8s:"} {
+		for _, firstV := range []string{"=blue", "", "=", "=TRUE", "=1", "=true", "=false"} {
+			for _, second := range []string{"=true", "=false", "=blue"} {
+				for _, def := range []bool{false, true} {
+					lines := []string{marker + "flag" + firstV, marker + "other=true", "plain text", marker + "flag" + second}
+					var b bool
+					var err error
+					in := list(atom(marker), atom("flag"), boolS(def), atoms(lines))
+					cls := []string{"tagline", "v2", "bool-one-key-several-times"}
+					if p, _ := catch(func() { b, err = gengo.ExtractSingleBoolCommentTag(marker, "flag", def, lines) }); p {
+						g.Emit("C08.bool2", in, tag("panic"), append(cls, "PANIC")...)
+					} else if err != nil {
+						g.Emit("C08.bool2", in, tag("err", c08errS(err)), append(cls, "bool-error")...)
+					} else {
+						g.Emit("C08.bool2", in, tag("ok", boolS(b)), cls...)
+					}
+				}
+			}
 		}
 	}
 }
